@@ -54,12 +54,3 @@ impl<W: VSink> VCompressorWriter<W> {
     { unimplemented!() }
 }
 
-// byteorder::WriteBytesExt::write_u32::<LittleEndian>  [rewrite R10]
-#[verifier::external_body]
-pub fn vio_write_u32_le<W: VSink>(w: &mut W, v: u32) -> (r: std::io::Result<()>)
-    requires old(w).wf(),
-    ensures final(w).wf(), final(w).flushed() == old(w).flushed(),
-        r is Ok ==> final(w).log().len() == old(w).log().len() + 4 && final(w).log().subrange(0, old(w).log().len() as int) == old(w).log()
-            && le_u32(final(w).log().subrange(old(w).log().len() as int, old(w).log().len() + 4int)) == v,
-        r is Err ==> final(w).log().len() >= old(w).log().len() && final(w).log().subrange(0, old(w).log().len() as int) == old(w).log(),
-{ unimplemented!() }
